@@ -18,9 +18,11 @@ CLAIMED = {
             "batch_outer_operation is the row-major outer product of hat weights and the hypercube output equals iterated 1-D "
             "interpolation; vertex reproduction, convex weights, range bound, cell chord formula on closed cells (continuity), "
             "all-pairs monotonicity along a monotone kernel axis, Edgeworth effect-monotonicity. Simplex: convex weights, sorted "
-            "permutation, pipeline = vertex walk, vertex/edge agreement and monotonicity within an ordering region at index level.",
-            "4/C02", "PARTIAL: the simplex flat-index<->multi-index bridge and all-pairs simplex monotonicity are stated as "
-            "`def : Prop` (C02_simplex_index_bridge, C02_simplex_mono_all_pairs), covered by the correspondence and oracle only. "),
+            "permutation, flat-index bridge (evalSimplex = walk over multi-indices, no out-of-bounds gather), agreement with "
+            "hypercube on vertices and axis-parallel edges, tie-independence, range, and ALL-PAIRS monotonicity across ordering "
+            "regions and cells (C02_T4_simplex_mono).",
+            "4/C02", "no explicit Lipschitz/continuity theorem (continuity follows from the closed-cell formulas); int32 cast range and "
+            "float behaviour are outside the model. "),
     "C04": ("Lean 4 theorems on an executable model of pwl_calibration_lib.project_all_constraints (Dykstra loop with last_change, "
             "finalisation, squeeze) + differential correspondence (PWLCalibrationConstraints, layer wiring, private stages) + oracle",
             "Theorems (Props/C04.lean), all kernels/sizes/positive spacings/iteration counts: result monotone exactly, within "
@@ -47,9 +49,10 @@ CLAIMED = {
     "C12": ("Lean 4 iff-theorems (reduce_min/max <-> forall) on executable models of every assert_constraints + accept/reject "
             "differential on LP-generated feasible / single-violation / exact-threshold kernels",
             "Theorems (Props/C12.lean): accepts = true <-> every covered constraint has slack >= -eps, for categorical, linear "
-            "(incl. order-2 norm without sqrt), PWL, all seven asserted lattice kinds incl. the trailing unit axis, KFL monotonicity.",
-            "4/C12", "PARTIAL: KFL bound assertions modelled and tied, no iff theorem; coverage gaps of the real asserts "
-            "(unimodality, KFL non-negativity, PWL convexity) are reported in evidence notes. "),
+            "(incl. order-2 norm without sqrt), PWL, all seven asserted lattice kinds incl. the trailing unit axis, KFL monotonicity "
+            "and bounds (kfl_iff).",
+            "4/C12", "multi-unit Linear/PWL/categorical/KFL are judged column-wise in the harness; coverage gaps of the real asserts "
+            "(unimodality, KFL non-negativity, PWL convexity) are reported in evidence notes, not as violations. "),
     "C13": ("Lean 4 theorems over index-function tensors (reindexing by nodup bijection, List.Perm, induction) on code-shaped models "
             "of the regularizers + differential correspondence + numpy oracle of the documented formulas",
             "Theorems (Props/C13.lean), all shapes/units/amounts/kernels: lattice Laplacian/torsion (transpose, reshape, slices) "
@@ -60,9 +63,10 @@ CLAIMED = {
             "explicit permutations) + differential correspondence with replayed permutations + oracle",
             "Theorems (Props/C17.lean), all sizes and ALL permutations/draws: RTL exact rank, every input used, usage counts differ "
             "by <= 1, monotone wiring and output label; random ensemble (rank, no repeats, coverage, conditional on success); "
-            "all-pairs cover complete with sizes <= rank.",
-            "4/C17", "PARTIAL: the Crystals final structure (CrystalsSpec) is a `def : Prop`, covered by exact correspondence and the "
-            "oracle; zero-score features are known finding F-C17-a. "),
+            "(incl. totality under the code's preconditions); all-pairs cover complete with sizes <= rank; Crystals end to end "
+            "(allocation assert, add list, greedy placement to exact rank, swap invariance: crystals_structure).",
+            "4/C17", "zero-score features are known finding F-C17-a (counter-witness theorem); `no repeated feature inside a final "
+            "Crystals lattice` is not claimed by the property and not proved (no counter-example in 2e5 real runs). "),
     "C18": ("Lean 4 theorems on an executable model of compute_keypoints / _weighted_quantile (half-even rounding with explicit "
             "tie directions) + differential correspondence on exact dyadic samples + oracle",
             "Theorems (Props/C18.lean), all samples/weights/tie directions: nearest-rank indices strictly increasing in range; "
@@ -73,10 +77,12 @@ CLAIMED = {
     "C19": ("Lean 4 theorems on the model of custom_reduce_prod's grad_fn + GradientTape correspondence with planted exact zeros + "
             "Jacobian oracle",
             "Theorems (Props/C19.lean): for every list and index and every zero pattern the gradient factor equals the product of "
-            "the other entries and is the exact difference quotient of the product; outputs of the generic form dot(w, K) are "
-            "linear in K with coefficient w.",
-            "4/C19", "PARTIAL: linearity is proved for the generic dot form; Lattice/PWL/categorical layers are tied to it by the "
-            "Jacobian correspondence (non-negative, summing to one for Lattice); no HasDerivAt statement. "),
+            "the other entries and is the exact difference quotient of the product; the hypercube and simplex Lattice outputs, "
+            "the PWLCalibration output and the categorical output of the REAL evaluation models are dot(weights(x), kernel) with "
+            "kernel-independent weights (non-negative, summing to one for Lattice; one-hot for categorical), with exact "
+            "difference quotients in every kernel entry.",
+            "4/C19", "derivatives are stated as exact difference quotients of functions affine in each kernel entry (no HasDerivAt "
+            "form); TF autodiff itself is exercised by the GradientTape correspondence. "),
     "C20": ("Lean 4 theorems (structural induction on dot/clip) on the model of Linear.call + differential correspondence of the "
             "real float64 layer + consequence oracles on constrained kernels",
             "Theorems (Props/C20.lean), all kernels/bounds/inputs: output = bias + sum k_i*clip(x_i); clip monotone and in bounds; "
@@ -86,28 +92,32 @@ CLAIMED = {
     "C01": ("Lean 4 theorems on an executable model of lattice_lib.finalize_constraints / project_by_dykstra / "
             "LatticeConstraints.__call__ + differential correspondence (finalize_constraints, LatticeConstraints, "
             "Lattice.finalize_constraints) + oracle",
-            "Theorems (Props/C01.lean): for every rank, size vector, monotonicity set, any number of Edgeworth trusts of "
-            "either direction and any bounds, and EVERY input kernel (arbitrary Dykstra output), finalize+clip returns a "
-            "kernel monotone along every monotone axis, meeting every Edgeworth inequality and the bounds "
-            "(C01_strict_edgeworth_class); likewise for any number of trapezoid trusts (shared conditional axes allowed) "
-            "without Edgeworth trusts (C01_strict_trapezoid_class); both transported to the executable table model by "
-            "per-step locality (finalizeT_agree, C01_exec_*). Configurations mixing Edgeworth and trapezoid trusts: partial - "
-            "covered by the correspondence+oracle each run; the class violating the property is proved as a counter-witness "
-            "(C01_counter_witness) and listed as known finding F-C01-a.",
-            "4/C01", "C01_full (all configurations) is NOT proved: with both trust kinds present the max-behind / running-max "
-            "trapezoid modes are modelled and tied, not proved; the Dykstra part of feasible=>unchanged is C08's theorem. "),
+            "Theorems (Props/C01.lean): for every rank, size vector, monotonicity set, bounds and EVERY input kernel (arbitrary "
+            "Dykstra output, any iteration count), finalize+clip returns a kernel monotone along every monotone axis, meeting "
+            "every Edgeworth and trapezoid inequality and the bounds, for every accepted configuration in the class H_trap "
+            "(C01_strict_mixed_class: any Edgeworth trusts of either direction, any trapezoid trusts matching or not, "
+            "trapezoid conditional axes free and pairwise distinct when Edgeworth trusts are present, or rank 2); classes "
+            "A (Edgeworth only), B (trapezoid only, shared conditionals allowed), C1 are separate theorems; all transported to "
+            "the executable table model by per-step locality (finalizeT_agree, C01_exec_*). Outside H_trap the property is "
+            "false on the current tree: counter-witness theorem C01_counter_witness = known finding F-C01-a.",
+            "4/C01", "C01_full (all configurations) stays a `def : Prop`: with Edgeworth trusts present a monotone trapezoid "
+            "conditional axis in rank >= 3 is F-C01-a and shared conditional axes are the documented exception; the Dykstra "
+            "part of feasible=>unchanged is C08's theorem. "),
     "C08": ("Lean 4 model of project_by_dykstra (all group projections + schedule) + differential correspondence per family and "
             "combined + fixpoint / convergence / QP-nearest-point oracle (scipy SLSQP)",
             "Theorems (Props/C08.lean): feasible/fixed kernels are returned unchanged by the Dykstra loop with all "
             "roll-back tensors zero for EVERY iteration count (dykstra_fixpoint, monoGroup_fix); the telescoping invariant "
             "w - sum(last_change) holds along every pass for ANY group maps; every stencil map (pair, 2x2 square, both triangles, "
             "range quadruple and corner) lands in its half-space, fixes it and satisfies the variational inequality, i.e. is the "
-            "exact Euclidean projection. The executable model agrees with project_by_dykstra on every family.", "4/C08", "PARTIAL: convergence of Dykstra's algorithm (violation -> 0, limit = nearest point) is NOT proved (C08_limit_partial); it is tested each run against scipy SLSQP on small lattices, and the PWL iterative projection is covered by the oracle here and by C04's model. "),
+            "exact Euclidean projection; on the EXECUTABLE table loop: every group map is local, a kernel feasible for all "
+            "configured families (FeasibleD) is returned unchanged for every iteration count (projectByDykstraT_feasible), "
+            "re-projection is idempotent on fixed points, telescoping invariant, table loop = function loop on the box.", "4/C08", "PARTIAL: convergence of Dykstra's algorithm (violation -> 0, limit = nearest point) is NOT proved (C08_limit_partial); it is tested each run against scipy SLSQP on small lattices, and the PWL iterative projection is covered by the oracle here and by C04's model. "),
     "C06": ("Lean 4 theorems on an executable model of linear_lib.project / categorical project / "
             "internal_utils partial-order projection + differential correspondence against the real constraints",
             "Theorems (Props/C06.lean): categorical pairs+bounds+fixpoint; Linear sign clip, monotonic-dominance and range-dominance stages establish every pair and keep signs (non-zero scalings), normalisation keeps all and gives unit 1-norm, feasible=>unchanged; for every weight "
-            "vector, pair set and valid topological order; the order validity of the modelled _topological_sort "
-            "is a decidable hypothesis evaluated on every correspondence case.",
+            "vector and every ACYCLIC pair set: the modelled _topological_sort is proved to return a valid order for "
+            "acyclic graphs with the code's fuel (Lemmas/TopoSort.lean: DFS invariants, topoSort_valid, "
+            "topoSort_some_of_nonempty; *_acyclic corollaries).",
             "4/C06", ""),
 }
 PENDING_REASON = "check not built yet in this round (design in DESIGN.md section 4); will be claimed when its model, theorems and correspondence exist"
